@@ -845,7 +845,7 @@ func (pc ParseContext) compileCondWithoutControlVar(ctx context.Context, c ast.C
 
 func (pc ParseContext) compilePostfixAndTouch(ctx context.Context, b ast.Branch, c ast.Children) (rel.Expr, error) {
 	if _, has := b["touch"]; has {
-		panic("unfinished")
+		return nil, fmt.Errorf("the touch operator ->* is not supported yet")
 	}
 	switch c.Scanner().String() {
 	case "count":
